@@ -181,4 +181,34 @@ proof fn lemma_fresh_push_child(a: Seq<Expr>, c: ExprId)
     }
 }
 
+
+/// the rebuilt tree r (in a1) has no more word nesting than e had (in a0), for both readings
+spec fn sub_keep(a0: Seq<Expr>, e: int, a1: Seq<Expr>, r: int) -> bool {
+    (sub_ok(a0, e, false) ==> sub_ok(a1, r, false)) && (sub_ok(a0, e, true) ==> sub_ok(a1, r, true))
+}
+
+proof fn lemma_sub_keep_extend(a0: Seq<Expr>, e: int, a1: Seq<Expr>, r: int, a2: Seq<Expr>)
+    requires sub_keep(a0, e, a1, r), is_prefix(a1, a2)
+    ensures sub_keep(a0, e, a2, r)
+{
+    if sub_ok(a0, e, false) { lemma_sub_ok_prefix(a1, a2, r, false); }
+    if sub_ok(a0, e, true) { lemma_sub_ok_prefix(a1, a2, r, true); }
+}
+
+proof fn lemma_sub_keep_chain(a0: Seq<Expr>, a1: Seq<Expr>, e: int, a2: Seq<Expr>, r: int)
+    requires is_prefix(a0, a1), sub_keep(a1, e, a2, r)
+    ensures sub_keep(a0, e, a2, r)
+{
+    if sub_ok(a0, e, false) { lemma_sub_ok_prefix(a0, a1, e, false); }
+    if sub_ok(a0, e, true) { lemma_sub_ok_prefix(a0, a1, e, true); }
+}
+
+proof fn lemma_sub_keep_same(a0: Seq<Expr>, e: int, a1: Seq<Expr>)
+    requires is_prefix(a0, a1)
+    ensures sub_keep(a0, e, a1, e)
+{
+    if sub_ok(a0, e, false) { lemma_sub_ok_prefix(a0, a1, e, false); }
+    if sub_ok(a0, e, true) { lemma_sub_ok_prefix(a0, a1, e, true); }
+}
+
 } // verus!
